@@ -236,4 +236,58 @@ theorem led_gmqs (qid : Int) (s : DL) (h : Led s.1 s.2.invoices) (hw : LedWf s.1
   · rw [he]; exact h
   · rw [he]
     exact led_setPaid s.1 s.2.invoices q h hw.mintIds (Gonuts.Props.C06.dbGetMintQ_mem hq) hu (lnInvStatus_settled _ _ hst)
+
+theorem LedWf.gmqs (qid : Int) (s : DL) (hw : LedWf s.1) : LedWf (gmqsSpec qid s).1.1 := by
+  have h1 := Gonuts.Props.C06.mintQ_nodup_db.runM (getMintQuoteState qid) s hw.mintIds
+  rw [getMintQuoteState_runM] at h1
+  refine ⟨h1, ?_⟩
+  rcases Gonuts.Props.C06.quoteState_only_unpaid_to_paid qid s with he | ⟨q, _, _, _, he⟩ <;> rw [he] <;> exact hw.meltIds
+
+/-- `MintTokens` keeps the ledger. -/
+theorem led_mint (cx : Cx) (qid : Int) (outs : List BMsg) (sig : QSig) (s : DL) (h : Led s.1 s.2.invoices) (hw : LedWf s.1) :
+    Led (runM (mintTokens cx qid outs sig) s).1.1 (runM (mintTokens cx qid outs sig) s).1.2.invoices := by
+  obtain ⟨hg, hgi⟩ := led_gmqs qid s h hw
+  have hwg := hw.gmqs qid s
+  generalize hr : runM (mintTokens cx qid outs sig) s = x
+  obtain ⟨s', r⟩ := x
+  show Led s'.1 s'.2.invoices
+  rcases mintTokens_cases cx qid outs sig s s' r hr with ⟨e', _, _, hs⟩ | ⟨q, hq, hc⟩
+  · rw [hs]; exact hg
+  · have hmem : q ∈ (gmqsSpec qid s).1.1.mintQ := Gonuts.Props.C06.gmqs_mem qid s q hq
+    rcases hc with ⟨_, _, hs⟩ | ⟨_, _, hs⟩ | ⟨_, _, hs⟩ | ⟨hp, ⟨e', _, hl, hs | hs⟩ | ⟨sigs, he, hok⟩⟩
+    · rw [hs]; exact hg
+    · rw [hs]; exact hg
+    · rw [hs]; exact hg
+    · rw [hl, hs]; exact hg
+    · rw [hl, hs]
+      have := Gonuts.Props.C06.updMintQ_same_state _ q hwg.mintIds hmem
+      rw [hp] at this
+      rw [this]; exact hg
+    · rw [hok.ln, hok.db, updMintQ_twice]
+      apply led_setIssued _ _ q sigs hg hwg.mintIds hmem hp
+      obtain ⟨total, hac, hle⟩ := hok.amount
+      have h1 := amountChecked_some _ _ hac
+      have h2 := (signAll_ok hok.signed).2.1
+      rw [amtS_eq_natSum, h2]
+      simp only [outAmounts] at h1
+      rw [← h1]
+      have hle' : ¬ q.amount < total := hle
+      rw [UInt64.lt_iff_toNat_lt] at hle'
+      omega
+
+/-- The invoice watcher (the backend only notifies settled invoices: `hs`). -/
+theorem led_watcher (qid : Nat) (s : DL) (h : Led s.1 s.2.invoices) (hw : LedWf s.1)
+    (hs : ∀ q, dbGetMintQ s.1 qid = .ok q → isSettled s.2.invoices q.hash = true) :
+    Led (runM (watcherNotified qid) s).1.1 (runM (watcherNotified qid) s).1.2.invoices := by
+  generalize hr : runM (watcherNotified qid) s = x
+  obtain ⟨s', r⟩ := x
+  obtain ⟨hl, hc⟩ := watcher_cases qid s s' r hr
+  show Led s'.1 s'.2.invoices
+  rw [hl]
+  rcases hc with ⟨_, he⟩ | ⟨q, hq, hu, _, he⟩
+  · rw [he]; exact h
+  · rw [he]
+    have hid : q.id = qid := by have := dbGetMintQ_id hq; exact_mod_cast this
+    rw [← hid]
+    exact led_setPaid s.1 s.2.invoices q h hw.mintIds (Gonuts.Props.C06.dbGetMintQ_mem hq) hu (hs q hq)
 end Gonuts.Model.Mint
